@@ -49,6 +49,7 @@ class UBaseFalsy(BaseException):
         return False
 
 
+NONE_ID = 777
 EXC_CLASSES = [UExc, ValueError, LookupError, ArithmeticError, RuntimeError, TypeError, AssertionError]
 BASE_CLASSES = [UBase, KeyboardInterrupt, SystemExit, GeneratorExit, asyncio.CancelledError]
 
@@ -86,6 +87,12 @@ class World:
         return obj
 
     def val(self, i, truth="truthy", cid=None):
+        if i == NONE_ID:
+            # the value with this id is the very object None (an Optional argument passed as None)
+            if i not in self.objs:
+                self.objs[i] = None
+                self.by_pyid[id(None)] = i
+            return None
         if i in self.objs:
             o = self.objs[i]
             if isinstance(o, V) and cid is not None:
@@ -265,7 +272,12 @@ def build(case):
         k = _ans_kind(a)
         if k == "val":
             d = a["val"]
-            return w.val(d["v"], d["t"], cid if site == "cond" else None)
+            r = w.val(d["v"], d["t"], cid if site == "cond" else None)
+            if site == "cond" and not is_async and cid % 4 == 1 and type(r) is V and not case.get("plainCondValues"):
+                # the value a condition of a SYNC callable returns happens to be an awaitable object (a Future, a handle
+                # with __await__): it is a value like any other - judged by its truth value, never awaited, never refused
+                r.__class__ = _AwaitableCondV
+            return r
         if k == "raises":
             raise w.exc(a["raises"]["e"])
         if k == "coro":
@@ -584,6 +596,14 @@ class _AwaitableV(V):
     def __await__(self):
         self._awaited_log.append(["awaited-captured-value", self._sid])
         return 12345
+        yield
+
+
+class _AwaitableCondV(V):
+    """the value of a condition of a sync callable that is itself awaitable (not a coroutine)"""
+
+    def __await__(self):
+        raise AssertionError("the value of a sync condition must not be awaited")
         yield
 
 
